@@ -884,10 +884,14 @@ def _analyze_directory_for_import(root, project, schema):
     elif callable(schema):
         schema_function = _with_consistency_check(schema, read_statepoint_file)
     elif isinstance(schema, str):
-        if not (os.path.isabs(schema) and schema.startswith(os.path.abspath(root))):
-            schema = os.path.normpath(os.path.join(root, schema))
+        # Match paths relative to the origin, so that the origin's own name is never read
+        # as a regular expression.
+        if os.path.isabs(schema) and schema.startswith(os.path.abspath(root)):
+            schema = os.path.relpath(schema, os.path.abspath(root))
+        parse_relative = _make_path_based_schema_function(os.path.normpath(schema))
         schema_function = _with_consistency_check(
-            _make_path_based_schema_function(schema), read_statepoint_file
+            lambda path: parse_relative(os.path.relpath(path, root)),
+            read_statepoint_file,
         )
     else:
         raise TypeError("The schema variable must be None, callable, or a string.")
